@@ -49,6 +49,8 @@ EXPR_SEEDS = {
     "e1": "count(//item[@n = '2']) + string-length(concat('a', \"b\")) * 2",
     "e2": "/doc/item[position() = last()]/@n | //sub[not(node())]",
     "e3": "substring(translate(string(/doc/item[1]), 'b', 'B'), 1, 3) = 'Bt' and -(3 - 5) >= 2 div 1",
+    # every axis that walks the tree, started from attribute and namespace nodes (which are not among their parents' children)
+    "e4": "count(//@*/following::*) + count(//@*/preceding::node()) + count(//@*/following-sibling::*) + count(//@*/ancestor-or-self::node()[last()]) + count(//namespace::*/following::*) + count(//namespace::*/preceding::*) + count(//@*/descendant-or-self::node())",
 }
 # the fixed inputs of the non-mutated roles
 SEED_XML, SEED_XSL, SEED_EXPR = "xml1", "xslg", "count(//*) + string-length(string(/)) + count(//@*)"
@@ -431,6 +433,13 @@ def render(c):
         decl = "".join('<xsl:decimal-format name="f%d" decimal-separator="%s" grouping-separator="%s"/>' % (k, ",:!|^"[k % 5], "._ ~+"[(k // 5) % 5]) for k in range(i))
         uses = "".join("<v><xsl:value-of select=\"format-number(1234.5, '#%s##0%s0', 'f%d')\"/></v>" % ("._ ~+"[(k // 5) % 5], ",:!|^"[k % 5], k) for k in list(range(i)) * 2)
         return "xsl", sheet(uses, decl), fl
+    if cls == "manyDefaultCounts":
+        # xsl:number without count= on nodes with i different names (elements, then attributes, of a result tree fragment turned into a
+        # node-set): the default count pattern is built - and may be cached - per name at run time
+        body = "".join('<n%d a%d="v"/>' % (k, k) for k in range(i))
+        uses = ('<xsl:for-each select="exsl:node-set($t)/*"><xsl:number/>,</xsl:for-each>|<xsl:for-each select="exsl:node-set($t)/*/@*"><xsl:number/>,</xsl:for-each>|'
+                '<xsl:for-each select="exsl:node-set($t)/*"><xsl:number level="any"/>,</xsl:for-each>')
+        return "xsl", sheet(uses, '<xsl:variable name="t">%s</xsl:variable>' % body, ' xmlns:exsl="http://exslt.org/common"'), fl
     if cls == "paramExpression":
         return "param", PARAM_EXPRS[i - 1].encode("utf-8"), fl
     if cls == "nonExpression":
